@@ -16,6 +16,7 @@ class Product:
         self.cfg = cfg
         self.seen = {}  # (node id, state) -> predecessor (node id, state) or None
         self.at_node = {}  # node id -> set of states on entry
+        self.transitions = set()  # (pred id, pred state, edge kind, target id, target state)
 
     def path_to(self, nid, state, limit=60):
         """Witness: list of CFG nodes from the entry to (nid, state)."""
@@ -60,6 +61,7 @@ def explore(cfg, init, step):
             else:
                 outs = [s for sel, s in normal if sel is None or sel == kind]
             for s in outs:
+                prod.transitions.add((node.id, state, kind, tgt.id, s))
                 key = (tgt.id, s)
                 if key not in prod.seen:
                     prod.seen[key] = (node.id, state)
